@@ -344,6 +344,41 @@ func runOp(in *instances, op OpSpec) (d string) {
 		if err != nil {
 			return "W " + digestMatrix(m, err)
 		}
+		if r.intn(2) == 0 {
+			// two (or three) symbols in one image: finder patterns of different
+			// symbols form extra candidates that fail to decode and are dropped;
+			// sometimes one symbol is damaged beyond repair
+			n := 2 + r.intn(2)
+			var ms []*gozxing.BitMatrix
+			w, h := 0, 0
+			for i := 0; i < n; i++ {
+				mi, e := in.qrw.Encode(text(r, 1+r.intn(30), r.intn(3)), gozxing.BarcodeFormat_QR_CODE, 80+r.intn(40), 80+r.intn(40), nil)
+				if e != nil {
+					return "W " + digestMatrix(mi, e)
+				}
+				ms = append(ms, mi)
+				w += mi.GetWidth() + 10
+				if mi.GetHeight() > h {
+					h = mi.GetHeight()
+				}
+			}
+			big, _ := gozxing.NewBitMatrix(w+10, h+20)
+			x0 := 10
+			for i, mi := range ms {
+				for y := 0; y < mi.GetHeight(); y++ {
+					for x := 0; x < mi.GetWidth(); x++ {
+						if mi.Get(x, y) {
+							big.Set(x0+x, 10+y)
+						}
+					}
+				}
+				if i == 0 && r.intn(3) == 0 {
+					big.SetRegion(x0+mi.GetWidth()/3, 10+mi.GetHeight()/3, mi.GetWidth()/3, mi.GetHeight()/3) // a blot
+				}
+				x0 += mi.GetWidth() + 10
+			}
+			m = big
+		}
 		bmp, _ := gozxing.NewBinaryBitmapFromImage(m)
 		rs, err := in.qrmulti.DecodeMultiple(bmp, nil)
 		out := fmt.Sprintf("n=%d", len(rs))
